@@ -181,7 +181,10 @@ func solve(script string, timeoutS int, wantModel bool) solveResult {
 			res.time += total
 			return res
 		}
-		if len(res.output) > len(last.output) || last.output == "" {
+		// prefer the report of a solver that accepted the script over a parse error
+		lastErr := strings.Contains(last.output, "(error ")
+		resErr := strings.Contains(res.output, "(error ")
+		if last.output == "" || (lastErr && !resErr) || (lastErr == resErr && len(res.output) > len(last.output)) {
 			last = res
 		}
 	}
